@@ -21,7 +21,7 @@ PROP_MODULES = {
     "C13": ["contracts.c13", "contracts.c13b", "contracts.c13_bounded", "contracts.c11"],
     "C14": ["contracts.c14", "contracts.c14_bounded", "contracts.c08", "contracts.c17", "contracts.c13"],
     "C06": ["contracts.c06", "contracts.c06_bounded"],
-    "C07": ["contracts.c07", "contracts.c07_bounded", "contracts.c10"],
+    "C07": ["contracts.c07", "contracts.c07_bounded", "contracts.c10", "contracts.c03"],
     "C08": ["contracts.c08", "contracts.c15", "contracts.c12", "contracts.c15_bounded"],
     "C15": ["contracts.c15", "contracts.c13", "contracts.c08", "contracts.c10", "contracts.c17", "contracts.c14", "contracts.c12", "contracts.c15_bounded"],
     "C16": ["contracts.c16", "contracts.c16_bounded"],
@@ -37,7 +37,7 @@ PROP_MODULES = {
 RELATED = {
     "C01": ["contracts.c03", "contracts.c03_bounded", "contracts.c04", "contracts.c05", "contracts.c18", "contracts.c18_bounded"],
     "C06": ["contracts.c03"],
-    "C08": ["contracts.c13"],
+    "C08": ["contracts.c13", "contracts.c13b"],
     "C10": ["contracts.c08", "contracts.c12", "contracts.c13"],
     "C12": ["contracts.c13", "contracts.c17"],
     "C17": ["contracts.c12", "contracts.c03_bounded"],
